@@ -32,6 +32,10 @@ import (
 type countingPool struct {
 	base                   bb_zstd.Pool
 	name                   string
+	// eofWithData: decoders hand out their final bytes together with io.EOF
+	// (which io.Reader permits, and which klauspost's decoder does with its
+	// default, concurrent, options)
+	eofWithData            bool
 	encAcquired, encOut    int
 	decAcquired, decOut    int
 }
@@ -52,8 +56,43 @@ func (e *countingEncoder) Close() error {
 
 type countingDecoder struct {
 	bb_zstd.Decoder
-	p      *countingPool
-	closed bool
+	p       *countingPool
+	closed  bool
+	pending []byte
+	perr    error
+}
+
+func (d *countingDecoder) Read(b []byte) (int, error) {
+	if !d.p.eofWithData {
+		return d.Decoder.Read(b)
+	}
+	n := 0
+	if len(d.pending) > 0 {
+		n = copy(b, d.pending)
+		d.pending = d.pending[n:]
+	} else if d.perr != nil {
+		return 0, d.perr
+	} else {
+		var err error
+		n, err = d.Decoder.Read(b)
+		if err != nil {
+			d.perr = err
+			return n, err
+		}
+	}
+	if len(d.pending) == 0 && d.perr == nil && n > 0 {
+		// look one byte ahead: if that is the end, say so right away
+		var one [1]byte
+		m, err := d.Decoder.Read(one[:])
+		d.pending = append([]byte{}, one[:m]...)
+		if err != nil {
+			d.perr = err
+			if err == io.EOF && m == 0 {
+				return n, io.EOF
+			}
+		}
+	}
+	return n, nil
 }
 
 func (d *countingDecoder) Close() {
@@ -109,6 +148,7 @@ func c04GRPCStreams(c *sim.RunCtx) {
 		objs = append(objs, gobj{data, RefDigest("inst", fn, data)})
 	}
 	clientZstd := t.Chance(1, 2)
+	eofWithData := t.Chance(1, 2)
 	poolLimit := int64(1 + t.Choose(2))
 	chunk := []int{1, 3, 8, 64}[t.Choose(4)]
 	faultRate := []int{0, 80, 250}[t.Choose(3)]
@@ -127,12 +167,13 @@ func c04GRPCStreams(c *sim.RunCtx) {
 	for i := range placement {
 		placement[i] = t.Chance(2, 3)
 	}
-	desc := fmt.Sprintf("grpc-streams fn=%v clientZstd=%v poolLimit=%d chunk=%d faultRate=%d streamRate=%d clients=%d objs=%d placement=%v", fn, clientZstd, poolLimit, chunk, faultRate, streamRate, clients, len(objs), placement)
+	desc := fmt.Sprintf("grpc-streams fn=%v clientZstd=%v eofWithData=%v poolLimit=%d chunk=%d faultRate=%d streamRate=%d clients=%d objs=%d placement=%v", fn, clientZstd, eofWithData, poolLimit, chunk, faultRate, streamRate, clients, len(objs), placement)
 	c.Sample["case"] = desc
 	c.Note("case %s plans=%v", desc, plans)
 	var uploads []*sim.SrcStats
 	var backend *modelStore
 	srvPool, cliPool := newCountingPool("server", poolLimit), newCountingPool("client", poolLimit)
+	srvPool.eofWithData, cliPool.eofWithData = eofWithData, eofWithData
 	handlersRunning := 0
 	opsDone := 0
 	c.Sim(sim.SimOpts{MaxSteps: 300000, DeadlockClass: "deadlock"}, func(s *rt.Sched) {
